@@ -8,6 +8,7 @@ package main
 // with target types equal to, derived from, or unrelated to the original.
 
 import (
+	"bytes"
 	"os"
 	"encoding/binary"
 	"fmt"
@@ -414,7 +415,7 @@ func c17MsgpackWrapper(c *Ctx, draw func(int) int) []byte {
 	return append(out, c17WrapperMsgpackValues[draw(len(c17WrapperMsgpackValues))]...)
 }
 
-var c17FaultNames = []string{"store.flip", "store.overwrite", "store.torn", "store.lost", "store.dup", "store.misdirect", "store.zero", "store.lenfield", "store.token", "store.extbody", "store.header", "store.wrapper"}
+var c17FaultNames = []string{"store.flip", "store.overwrite", "store.torn", "store.lost", "store.dup", "store.misdirect", "store.zero", "store.lenfield", "store.token", "store.extbody", "store.header", "store.wrapper", "store.keycopy"}
 
 var c17LenChoices = []int{0, 1, 15, 16, 31, 32, 255, 256, 65535, 65536, 1 << 20, 1 << 24, 1<<31 - 1, 1<<32 - 1}
 
@@ -560,6 +561,31 @@ func c17ApplyFault(c *Ctx, kind int, data []byte, others [][]byte) []byte {
 			return out
 		}
 		return append([]byte(nil), h...)
+	case 12: // one string item is overwritten by a copy of another (a misdirected write inside the record): when both
+		// are keys of one map, a member is now given twice and another not at all, the declared count unchanged
+		if n > 0 && (data[0] == '{' || data[0] == '[') {
+			return c17TokenDamage(c, data) // JSON: the token-level damage has its own key overwrite
+		}
+		var strs []mpItem
+		for _, it := range mpScan(data) {
+			if it.kind == "str" && it.end <= n {
+				strs = append(strs, it)
+			}
+		}
+		if len(strs) >= 2 {
+			i := c.F(len(strs) - 1)
+			j := i + 1
+			if i+2 < len(strs) && c.F(2) == 0 {
+				j = i + 2 // in a map of scalars the next key is two items on
+			}
+			dst, src := strs[i], strs[j]
+			if c.F(2) == 0 {
+				dst, src = src, dst
+			}
+			out := append([]byte(nil), data[:dst.off]...)
+			out = append(out, data[src.off:src.end]...)
+			return append(out, data[dst.end:]...)
+		}
 	case 11: // some item becomes a dynamic-value wrapper whose type carries optional attributes
 		if n > 0 && (data[0] == '{' || data[0] == '[' || data[0] == '"') {
 			toks := jsonTokens(data)
@@ -652,7 +678,30 @@ func c17TokenDamage(c *Ctx, data []byte) []byte {
 		return append(out, data[b:]...)
 	}
 	t := toks[c.F(len(toks))]
-	switch c.F(7) {
+	kind := c.F(8)
+	if nk := bytes.Count(data, []byte(`":`)); nk >= 2 && c.F(3) == 0 {
+		kind = 7 // a document with several keys: damage among the keys is the interesting kind
+	}
+	switch kind {
+	case 7: // a key is overwritten by another key of the record (a misdirected write inside the record): one
+		// member is now given twice and another not at all, while the number of members stays what it was
+		var keys []jtok
+		for i := 0; i+1 < len(toks); i++ {
+			if toks[i].kind == 's' && toks[i+1].kind == 'p' && data[toks[i+1].a] == ':' {
+				keys = append(keys, toks[i])
+			}
+		}
+		if len(keys) >= 2 {
+			// (neighbouring keys are mostly members of one object)
+			i := c.F(len(keys) - 1)
+			dst, src := keys[i], keys[i+1]
+			if c.F(2) == 0 {
+				dst, src = src, dst
+			}
+			c.Probe("c17.token.key-overwritten")
+			return splice(dst.a, dst.b, string(data[src.a:src.b]))
+		}
+		return splice(t.a, t.b, c17Replacements[c.F(len(c17Replacements))])
 	case 0: // swap the token for one of another kind
 		return splice(t.a, t.b, c17Replacements[c.F(len(c17Replacements))])
 	case 1: // drop a delimiter
@@ -747,6 +796,16 @@ func c17GenRecord(c *Ctx) c17Record {
 	switch {
 	case kind <= 2: // JSON value (capsule payloads are encoded by encoding/json)
 		t := genType(c, 3, GenOpts{Capsule: c.G(4) == 0})
+		if c.G(4) == 0 {
+			// objects whose attributes share one type, alone or as members: a key damaged into a sibling's still decodes
+			et := genType(c, 1, GenOpts{})
+			obj := &TDesc{K: KObject}
+			for _, n := range []string{"a", "b", "k", "zz"}[:2+c.G(3)] {
+				obj.Names = append(obj.Names, n)
+				obj.Elems = append(obj.Elems, et)
+			}
+			t = []*TDesc{obj, {K: KList, Elem: obj}, {K: KMap, Elem: obj}, {K: KTuple, Elems: []*TDesc{obj, tString}}}[c.G(4)]
+		}
 		d := genValue(c, t, 3, GenOpts{Null: true, MaxLen: 3, Collide: c.G(3) == 0})
 		d.stripMarksDeep()
 		enc := generalize(c, t, 5)
